@@ -20,6 +20,18 @@ type boltTx struct {
 	done     bool
 	created  []string
 	puts     []boltPut
+	handed   [][]value // slices returned by Bucket.Get: valid only until the transaction ends
+}
+
+// endTx poisons every slice handed out by Get: bbolt only guarantees them for
+// the life of the transaction (they point into the mmap'd page).
+func (tx *boltTx) endTx() {
+	for _, h := range tx.handed {
+		for i := range h {
+			h[i] = BV(8, 0xDB)
+		}
+	}
+	tx.handed = nil
 }
 
 type boltPut struct {
@@ -97,6 +109,7 @@ func init() {
 			return fr.m.mkError("tx closed")
 		}
 		tx.done = true
+		tx.endTx()
 		return iface{}
 	})
 	add("(*go.etcd.io/bbolt.Tx).Commit", func(fr *frame, a []value) value {
@@ -106,6 +119,7 @@ func init() {
 			return m.mkError("tx closed")
 		}
 		tx.done = true
+		tx.endTx()
 		if !tx.writable {
 			return m.mkError("tx not writable")
 		}
@@ -169,17 +183,22 @@ func init() {
 		m := fr.m
 		b := boltObj(m, a[0], "Bucket").(*boltBucket)
 		key := concreteKey(m, a[1])
+		hand := func(v []value) value {
+			c := append([]value{}, v...) // what the caller sees: a view that dies with the transaction
+			b.tx.handed = append(b.tx.handed, c)
+			return c
+		}
 		for i := len(b.tx.puts) - 1; i >= 0; i-- {
 			p := b.tx.puts[i]
 			if p.bucket == b.name && p.key == key {
 				if p.del {
 					return []value(nil)
 				}
-				return p.val
+				return hand(p.val)
 			}
 		}
 		if v, ok := b.tx.db.buckets[b.name][key]; ok {
-			return v
+			return hand(v)
 		}
 		return []value(nil)
 	})
